@@ -41,8 +41,10 @@ type e1 struct {
 			Port int `config:"port"`
 		} `config:"inner"`
 	} `config:"out"`
-	U  e1Unp   `config:"u"`
-	UL []e1Unp `config:"ul"`
+	Any interface{}            `config:"any"`
+	AM  map[string]interface{} `config:"am"`
+	U   e1Unp                  `config:"u"`
+	UL  []e1Unp                `config:"ul"`
 }
 
 // e1Unp decodes its object form itself (a non-Config Unpacker): the errors of the nested calls know
@@ -100,7 +102,7 @@ func H_C14_faults() {
 		}
 	}
 	kind := verif.Choice("kind", nFaultKinds)
-	pos := verif.Choice("position", 15)
+	pos := verif.Choice("position", 17)
 	path := ""
 	switch pos {
 	case 0: // top-level scalar
@@ -165,6 +167,12 @@ func H_C14_faults() {
 	case 14: // a required setting missing in an object that (dotted spelling) exists only as an outer level of a key
 		cfg["out"] = map[string]interface{}{"inner": map[string]interface{}{"port": 1}}
 		path = "out.name"
+	case 15: // an unresolvable reference deep inside a value that is unpacked into interface{}
+		cfg["any"] = map[string]interface{}{"b": map[string]interface{}{"c": "${does.not.exist}", "d": 1}}
+		path = "any.b.c"
+	case 16: // the same inside a list inside a generic map
+		cfg["am"] = map[string]interface{}{"l": []interface{}{1, "${does.not.exist}"}}
+		path = "am.l.1"
 	case 12: // inside the object form of a type with its own Unpack(interface{})
 		v, f := bad(kind, "")
 		in := validIn()
